@@ -224,7 +224,7 @@ def _run(ctx):
     ctx.spec_dir()   # create the scratch spec copy before TLC runs are started from several threads
 
     # 1. design checks and 2. cell generation are independent TLC runs: at most 4 processes at a time
-    nsim, shards = (3000, 1) if quick else (60000, 4)
+    nsim, shards = (12000, 2) if quick else (60000, 4)
 
     def sim(i):
         r = ctx.tlc("Gen_Empty", "Gen_Empty_sim", workers=1, simulate=nsim // shards, depth=22, tag="Gen_Empty_sim-%d" % i,
